@@ -299,6 +299,29 @@ pub fn op_component(ctx: &mut Ctx, op: &Value, ev: &mut Map<String, Value>) {
                 }
             }
         }
+        "gate" => {
+            // the two pre-filters of word_match on literal words: {"r": cps, "q": cps, "qfin": bool}
+            let rt = custom_text(&json!({"chars": op.get("r").cloned().unwrap_or(json!([]))}));
+            let qt = custom_text(&json!({"chars": op.get("q").cloned().unwrap_or(json!([]))}));
+            let (nr, nq) = (rt.chars.len(), qt.chars.len());
+            let mut rt = rt;
+            let mut qt = qt;
+            rt.words = vec![WordShape::new(nr)];
+            let mut qw = WordShape::new(nq);
+            qw.fin = op.get("qfin").and_then(|x| x.as_bool()).unwrap_or(false);
+            qt.words = vec![qw];
+            let _ = core::verif::drain();
+            match guarded(|| (core::verif::length_check(&rt.view(0), &qt.view(0)), core::verif::jaccard_check(&rt.view(0), &qt.view(0)))) {
+                Ok((lc, jc)) => {
+                    ev.insert("length_ok".into(), json!(lc));
+                    ev.insert("jaccard_ok".into(), json!(jc));
+                }
+                Err(msg) => {
+                    ev.insert("panic".into(), json!(msg));
+                }
+            }
+            drain_access(ev);
+        }
         "wm" | "tm" => {
             // matcher on literal texts (model words with arbitrary stems / classes), or tokenised by the crate
             let (rt, qt) = if op.get("rt").is_some() {
